@@ -115,7 +115,7 @@ package sample
 // critical section (if the lock is given up in between, another worker may insert first: the executor then
 // treats the guarded fields as arbitrary when the lock is taken again, and the postconditions fail).
 //@ guarded_by sample.SamplerFactory.mutex: sharedDynsamplers
-//@ contract sample.getSharedDynsamplerAndRecorder props C12,C35 localcalls
+//@ contract sample.getSharedDynsamplerAndRecorder props C12,C13,C35 localcalls
 //@   assert locks
 //@   requires s != nil
 //@   requires[lock-free-at-entry@C12,C35] s.mutex == 0
@@ -160,6 +160,10 @@ package sample
 // ---- C35: the factory is used by every collector worker and by the peer-change callback
 //@ guarded_by sample.SamplerFactory.mutex: goalThroughputConfigs, peerCount
 //@ lockdiscipline sample.SamplerFactory mutex props C35 skip: Start
+// C13: a sampler the factory has handed out is the one it keeps adjusting when the cluster changes size - an
+// entry of the shared table is never replaced by a second instance made for the same key (a presence test made
+// in an earlier critical section is worthless: another worker may have inserted in between).
+//@ insertonly sample.SamplerFactory.sharedDynsamplers
 //@ guarded_by sample.dynsamplerMetricsRecorder.mu: lastMetrics
 //@ lockdiscipline sample.dynsamplerMetricsRecorder mu props C35 skip: RegisterMetrics
 
